@@ -351,7 +351,9 @@ class Body:
             return ("callop", self.expr(f["op"], depth - 1), [self.expr(a, depth - 1) for a in t["args"]], bi)
         if kind != "assign":
             return ("local", l)
-        r = payload
+        return self.expr_rvalue(payload, depth)
+
+    def expr_rvalue(self, r, depth=12):
         rv = r["rv"]
         if rv == "use":
             return self.expr(r["o"], depth - 1)
@@ -386,6 +388,42 @@ class Body:
             t = self.blocks[bi]["term"]
             if t["t"] == "switch" and self._const_switch_target(bi) is None:
                 yield bi, self.expr(t["o"]), [(int(v), tb) for v, tb in t["targets"]], t["otherwise"]
+
+
+def peel_polarity(e):
+    """strip negation wrappers; returns (inner_expr, polarity)"""
+    pol = True
+    cur = e
+    for _ in range(16):
+        if cur[0] == "un" and cur[1] == "Not":
+            pol = not pol
+            cur = cur[2]
+            continue
+        if cur[0] == "call" and cur[1] in ("anyhow::__private::not", "<bool as core::ops::Not>::not"):
+            pol = not pol
+            cur = cur[2][0]
+            continue
+        if cur[0] == "bin" and cur[1] in ("Eq", "Ne") and cur[3][0] == "const" and cur[3][2] == "bool":
+            same = bool(cur[3][1]) == (cur[1] == "Eq")
+            if not same:
+                pol = not pol
+            cur = cur[2]
+            continue
+        break
+    return cur, pol
+
+
+def bool_targets(targets, otherwise):
+    """(true_targets, false_targets) of a boolean switch"""
+    true_targets = []
+    false_targets = []
+    for v, tb in targets:
+        (false_targets if v == 0 else true_targets).append(tb)
+    if all(v == 0 for v, _ in targets):
+        true_targets.append(otherwise)
+    else:
+        false_targets.append(otherwise)
+    return true_targets, false_targets
 
 
 def bool_edges(body, bi, e, targets, otherwise, want):
@@ -717,7 +755,10 @@ class Program:
         first contributing function (for reporting). exclude: body id -> blocks ignored."""
         reach = self.reachable_from(roots, stop, exclude)
         writes, mutcalls, reads = {}, {}, {}
+        stopset = set(stop)
         for f in sorted(reach):
+            if f in stopset:
+                continue  # not expanded and not summarised
             b = self.bodies.get(f)
             if b is None or not self._is_code(b):
                 continue
